@@ -196,7 +196,13 @@ func (c *xtsDecrypter) CryptBlocks(plaintext, ciphertext []byte) {
 		batchSize := concCipher.Concurrency() * blockSize
 		var tweaks []byte = make([]byte, batchSize)
 
-		for len(ciphertext) >= batchSize {
+		// keep the last full block out of the batches when a partial block
+		// follows: ciphertext stealing decrypts it with the next tweak
+		reserved := 0
+		if remain := len(ciphertext) % blockSize; remain > 0 {
+			reserved = blockSize + remain
+		}
+		for len(ciphertext)-reserved >= batchSize {
 			doubleTweaks(&c.tweak, tweaks, c.isGB)
 			subtle.XORBytes(plaintext, ciphertext, tweaks)
 			concCipher.DecryptBlocks(plaintext, plaintext)
